@@ -27,13 +27,18 @@ RULE = (
     "obfuscated port when network.peer.obfuscate prefers it; p is a child candidate); DistributedBranchLevel(l) / "
     "DistributedBranchRoot(r) / both (either order) on a live link of p or of the current parent (repeated with new "
     "values, level 0 included; with nobody connected: p connects and announces at once); EOF/reset of a link of p / "
-    "of the parent / of a child; change of a peer's connect outcome; ParentMinSpeed / ParentSpeedRatio / "
+    "of the parent / of a child; write failure armed on the client-side socket of the k-th child (the next write to "
+    "that child raises ECONNRESET in drain(): nothing happens until the client fans something out); change of a "
+    "peer's connect outcome; ParentMinSpeed / ParentSpeedRatio / "
     "GetUserStats(own speed); ResetDistributed; server session loss by reset (auto reconnect + re-login) or EOF "
     "(re-login by a later event); long advance (0.5 / 2 / 11 s). Operands are indices modulo the live population. "
     "Optional structured prefixes raise the density of the interesting classes: child and parent early; "
     "'handover' (a second candidate connects after the parent was chosen and stays silent, the parent is lost, the "
     "candidate announces 0..100 ms later, i.e. inside or outside the window in which the client is still telling "
-    "the server about the loss); 'limit' (children first, then a speed/ratio/min-speed change, then one more peer). "
+    "the server about the loss); 'limit' (children first, then a speed/ratio/min-speed change, then one more peer); "
+    "'fanout' (2..3 children, a write failure armed on one of them - first, middle or last of the children list - "
+    "immediately before the parent announces new values / is lost / the server resets / a parent is set: every "
+    "remaining live child must still be told the new position). "
     "After each event the driver lets 1..4 loop iterations or 0.5 / 1 / 2 / 4 / 20 / 100 ms pass (the next event "
     "lands between the sends the previous one triggered; equal arrival instants interleave the handlers of "
     "different connections per loop iteration) or quiesces (>= 300 ms, extended until no send to the server is "
@@ -90,7 +95,7 @@ DIRECT = ['accept', 'refuse', 'hang']
 INDIRECT = ['pierce', 'cannot', 'silent']
 QUIESCE = 0.3003     # off the 0.5 ms grid of the events: never samples the instant a write resumes
 OBF_PORT = 2235
-OPS = ('pp', 'in', 'cin', 'lvl', 'root', 'both', 'plvl', 'proot', 'pboth', 'close', 'pclose', 'cclose', 'direct', 'indirect',
+OPS = ('pp', 'in', 'cin', 'wfail', 'lvl', 'root', 'both', 'plvl', 'proot', 'pboth', 'close', 'pclose', 'cclose', 'direct', 'indirect',
        'minspeed', 'ratio', 'speed', 'reset', 'drop', 'relogin', 'adv')
 PROGRAMMING_ERRORS = ('AttributeError', 'TypeError', 'ValueError', 'KeyError', 'IndexError', 'RuntimeError',
                       'InvalidStateError', 'AssertionError', 'NameError', 'UnboundLocalError', 'RecursionError')
@@ -106,7 +111,7 @@ def _i(n):
 @st.composite
 def _event(draw):
     op = draw(st.sampled_from(
-        ['pp'] * 4 + ['in'] * 4 + ['cin'] + ['both'] * 3 + ['lvl'] * 2 + ['root'] * 2 + ['plvl'] * 3 + ['proot'] * 3 + ['pboth'] +
+        ['pp'] * 4 + ['in'] * 4 + ['cin'] + ['wfail'] * 2 + ['both'] * 3 + ['lvl'] * 2 + ['root'] * 2 + ['plvl'] * 3 + ['proot'] * 3 + ['pboth'] +
         ['pclose'] * 3 + ['cclose'] * 2 + ['close'] * 2 + ['speed'] * 2 + ['minspeed', 'ratio', 'reset', 'reset', 'drop',
                                                                          'drop', 'relogin', 'adv', 'direct',
                                                                          'indirect']))
@@ -117,7 +122,7 @@ def _event(draw):
         ev['p'] = draw(_i(4))
     if op in ('in', 'lvl', 'root', 'both'):
         ev['obf'] = draw(st.sampled_from([False, False, True]))     # (new) incoming connection on the obfuscated port
-    if op in ('lvl', 'root', 'both', 'close', 'cclose'):
+    if op in ('lvl', 'root', 'both', 'close', 'cclose', 'wfail'):
         ev['k'] = draw(_i(3))
     if op in ('lvl', 'both', 'plvl', 'pboth'):
         ev['v'] = draw(st.sampled_from([0, 0, 1, 2, 3, 4]))
@@ -153,7 +158,9 @@ def case_strategy(draw, avoid=()):
     # optional structured prefix so that a parent and a child exist early (density of the non-trivial class)
     prefix = []
     shape = draw(st.sampled_from(['none', 'child', 'parent', 'child+parent', 'child+parent', 'child+parent',
-                                  'parent+child', 'parent+child', 'handover', 'handover', 'limit']))
+                                  'parent+child', 'parent+child', 'handover', 'handover', 'limit', 'fanout',
+                                  'fanout']))
+    forced = {}
     if shape != 'none':
         c = draw(_i(npeers))
         p = draw(_i(npeers))
@@ -174,6 +181,24 @@ def case_strategy(draw, avoid=()):
             parent[1]['g'] = 5
             peers[p]['auto'] = peers[q]['auto'] = None
             peers[p]['direct'] = peers[q]['direct'] = 0
+        elif shape == 'fanout':
+            # 2..3 children, then the write to ONE of them (any position in the children list) fails exactly while
+            # branch values are fanned out: the parent announces new values / is lost / a parent is set
+            others = [i for i in range(npeers) if i != p]
+            kids = [{'op': 'in', 'p': draw(st.sampled_from(others)), 'obf': False, 'g': 5}
+                    for _ in range(draw(st.integers(2, 3)))]
+            arm = {'op': 'wfail', 'k': draw(_i(3)), 'g': draw(st.sampled_from([0, 0, 1, 2]))}
+            parent[1]['g'] = 5
+            if draw(st.booleans()):
+                trigger = draw(st.sampled_from([{'op': 'plvl', 'v': 4}, {'op': 'proot', 'r': 5}, {'op': 'pclose'},
+                                                {'op': 'pclose', 'reset': True}, {'op': 'reset'},
+                                                {'op': 'pboth', 'v': 3, 'r': 4, 'rf': draw(st.booleans())}]))
+                prefix = kids + parent + [arm, dict(trigger, g=5)]
+            else:
+                prefix = kids + [parent[0], arm, parent[1]]
+            peers[p]['auto'] = None
+            peers[p]['direct'] = 0
+            forced = {'speed': 5, 'minspeed': 0, 'ratio': draw(st.sampled_from([0, 1]))}
         elif shape == 'limit':
             # children first, then the limit changes (possibly below the number of children), then one more peer
             change = draw(st.sampled_from([{'op': 'speed', 'v': 1}, {'op': 'speed', 'v': 2}, {'op': 'speed', 'v': 3},
@@ -187,11 +212,11 @@ def case_strategy(draw, avoid=()):
                       'parent+child': parent + [child]}[shape]
     rest = draw(st.lists(_event(), min_size=1, max_size=10 - len(prefix)))
     events = [e for e in prefix + rest if e['op'] not in avoid]
-    return {'peers': peers, 'race': draw(st.booleans()), 'speed': draw(st.sampled_from([2, 2, 2, 4, 4, 4, 5, 5, 5, 3, 1, 0])),
+    return dict({'peers': peers, 'race': draw(st.booleans()), 'speed': draw(st.sampled_from([2, 2, 2, 4, 4, 4, 5, 5, 5, 3, 1, 0])),
             'minspeed': draw(_i(len(MINSPEEDS))) if draw(st.booleans()) else 0,
             'ratio': draw(_i(len(RATIOS))) if draw(st.booleans()) else 0,
             'drain': draw(st.sampled_from([0, 0, 0, 1, 2, 2, 3])), 'obfuscate': draw(st.sampled_from([False, False, True])),
-            'events': events}
+            'events': events}, **forced)
 
 
 # ---------------------------------------------------------------------------
@@ -721,6 +746,7 @@ def run_case(case) -> CaseResult:
             else:
                 link.ep.close()
 
+        armed = []       # client-side transports whose next write fails
         for n, ev in enumerate(doc['events']):
             op = ev['op']
             p = peers[ev['p'] % len(peers)]
@@ -736,6 +762,22 @@ def run_case(case) -> CaseResult:
                 p.connect('D', obfuscated=ev['obf'])
                 if ev['obf']:
                     labels.add('incoming-on-obfuscated-port')
+            elif op == 'wfail':
+                # the OS will report an error (ECONNRESET) on the next write to the k-th child: nothing happens until
+                # the client writes to it (fan-out of branch values), then drain() raises on that connection only
+                kids = list(dn.children)
+                tr = None
+                if kids:
+                    idx = ev['k'] % len(kids)
+                    writer = getattr(kids[idx].connection, '_writer', None)
+                    tr = getattr(writer, 'transport', None) if writer is not None else None
+                if tr is not None and not getattr(tr, '_lost', False):
+                    tr.fail_writes = ConnectionResetError('sim: connection reset on write')
+                    armed.append(tr)
+                    labels.add('write-failure-armed:%s-of-%d' % (
+                        'first' if idx == 0 else ('last' if idx == len(kids) - 1 else 'middle'), min(len(kids), 4)))
+                else:
+                    done = False
             elif op == 'cin':
                 # p asks the server to make the client connect to it (ConnectToPeer relay): the client opens the
                 # connection (obfuscated port of p when network.peer.obfuscate prefers it), p did the asking, so it is
@@ -840,6 +882,8 @@ def run_case(case) -> CaseResult:
             parent_among_children(f'{gap} s after event {n} {op}')
         await quiesce()
         observe('end')
+        if any(getattr(tr, '_lost', False) for tr in armed):
+            labels.add('write-failure-fired')
         # a session that was lost by reset comes back by itself: check once more after the re-login
         if client.session is None and not manual_relogin['needed']:
             await asyncio.sleep(3.0)
@@ -931,6 +975,12 @@ KNOWN_REPLAYS = {
         {'peers': _P3, 'drain': 2, 'events': [{'op': 'in', 'p': 0, 'g': 5}] + _PARENT + [
             {'op': 'pp', 'who': [2], 'g': 5}, {'op': 'pclose', 'g': 3},
             {'op': 'both', 'p': 2, 'k': 0, 'v': 3, 'r': 5, 'g': 5}]},
+    # three children, the write to the first one fails (ECONNRESET on drain) while the parent's new level is fanned
+    # out: the failing child goes, the two others must still be told the new position
+    'C13/child-told-wrong-position:parent-reannounced':
+        {'peers': _P3, 'speed': 5, 'events': [{'op': 'in', 'p': 0, 'g': 5}, {'op': 'in', 'p': 2, 'g': 5},
+                                              {'op': 'in', 'p': 0, 'g': 5}] + _PARENT + [
+            {'op': 'wfail', 'k': 0, 'g': 0}, {'op': 'plvl', 'v': 4, 'g': 5}]},
     'C13/parent-not-live:unregistered':
         {'peers': [_P3[0], _P3[0], {'direct': 2, 'indirect': 1, 'auto': None}], 'race': True, 'events': [
             {'op': 'pp', 'who': [2], 'g': 5}, {'op': 'both', 'p': 2, 'k': 0, 'v': 1, 'r': 5, 'g': 0},
